@@ -8,8 +8,9 @@ import KiraModel.Exec.SuiteFinal
 import KiraModel.Exec.SuiteSrate
 import KiraModel.Exec.SuiteModulator
 import KiraModel.Exec.SuiteModSys
+import KiraModel.Exec.SuiteClock
 
-open K.Exec
+open K.Exec K.Exec.Clock
 
 /-- A suite: state, initial state, step on a tokenised op line. `none` = unparsable op. -/
 structure Suite where
@@ -29,6 +30,9 @@ def suiteOf (name : String) : Option Suite :=
   | "lfo" => some { σ := LfoSt, init := {}, step := lfoStep }
   | "tweener" => some { σ := TweenerSt, init := {}, step := tweenerStep }
   | "modsys" => some { σ := SysSt, init := {}, step := sysStep }
+  | "clock" => some { σ := ClockSuiteState, init := {}, step := clockStep }
+  | "clocksys" => some { σ := SysSuiteState, init := {}, step := clockSysStep }
+  | "clocktear" => some { σ := TearState, init := {}, step := tearStep }
   | _ => none
 
 def tokens (line : String) : List String :=
